@@ -159,6 +159,9 @@ class Monitor(object):
                              "saw_verdict": {}, "saw_U": [], "expect_unlinked_notice": None, "decided_now": [], "named": set()}
             self.apply_input(ev)
             for ln in out:
+                if ln.startswith("#unterminated "):
+                    self.v("C09", "unterminated", "the daemon wrote %r... without a terminating newline (the next line is glued to it)" % ln[14:134])
+                    ln = ln[14:]
                 if ln.startswith("#verif"):
                     continue
                 self.stats["lines"] += 1
@@ -372,7 +375,7 @@ class Monitor(object):
                 self.judge_accept(i, c, ln)
             self.close(cid, "verdict " + cmd)
         elif cmd == "C":
-            ctx["saw_C"].append((i, c["tail"][1:]))
+            ctx["saw_C"].append((i, c["tail"][1:], len(ln)))
         elif cmd == "M":
             ctx["saw_M"].append((i, c["tail"]))
         elif cmd == "U":
@@ -383,7 +386,7 @@ class Monitor(object):
         ek = ctx["expect_kill"]
         if ek is None or ek[0] is not i:
             self.v("C05", "kill-unasked", "client %d rejected (%r) although no awaited service refused it in this step" % (i.id, c["tail"]))
-        elif c["tail"] != ":" + ek[1]:
+        elif c["tail"] != ":" + ek[1] and not same_or_cut(c["tail"][1:], ek[1], len(c["tail"]) + 20):
             self.v("C05", "kill-text", "client %d rejected with %r, the service said %r" % (i.id, c["tail"][1:], ek[1]))
 
     def judge_accept(self, i, c, ln):
@@ -527,13 +530,14 @@ class Monitor(object):
         seen_C = list(ctx["saw_C"])
         for (i, text) in ctx["expect_C"]:
             self.stats["relays"] += 1
-            if (i, text) in [(a, b) for a, b in seen_C]:
-                seen_C.remove([x for x in seen_C if x[0] is i and x[1] == text][0])
+            hit = [x for x in seen_C if x[0] is i and same_or_cut(x[1], text, x[2])]
+            if hit:
+                seen_C.remove(hit[0])
             else:
                 self.v("C05", "relay-missing", "challenge/retry text %r for client %d was not relayed verbatim in the same step (saw %s)" % (
-                    text, i.id, [(a.id, b) for a, b in ctx["saw_C"]]))
+                    text[:200], i.id, [(a.id, b[:200]) for a, b, _ in ctx["saw_C"]]))
         un = ctx["expect_unlinked_notice"]
-        for (i, text) in seen_C:
+        for (i, text, _) in seen_C:
             if un is not None and i is un and text == proto.UNLINKED_TEXT:
                 continue
             self.v("C05", "relay-unexpected", "client %d was sent %r which no service asked for" % (i.id, text))
@@ -591,6 +595,12 @@ class Monitor(object):
                 self.v("C03", "stuck", "client %d has all data (hurry=%s), no unanswered query%s and no unmet +!, but no verdict after step %r" % (
                     cid, i.hurry, (" (" + ", ".join(why) + ")") if why else "", proto.render(self.ev)),
                        sig="stuck:" + stuck_class(self, i))
+
+
+def same_or_cut(seen, sent, line_len):
+    """A relayed text is the text the service sent; a text that does not fit the daemon's line buffer may arrive cut
+    (the line is then about a thousand bytes long) - the statements do not say where, so any cut of such a line is accepted."""
+    return seen == sent or (line_len >= 1000 and sent.startswith(seen))
 
 
 def stuck_class(mon, i):
